@@ -176,6 +176,7 @@ func sameOrigin(c *Ctx, a, b ssa.Value) bool {
 
 func runC02(c *Ctx) {
 	ruleHalfClose(c)
+	ruleJoin(c, "HALFCLOSE")
 	ruleFirstBytes(c)
 	ruleClearDeadline(c)
 	rulePassthru(c, "PASSTHRU")
